@@ -514,6 +514,12 @@ class Executor:
             return outs + self.exec_block(state, st.body)
         if is_false(c):
             return outs + self.exec_block(state, st.orelse)
+        if not self.spec_mode and len(state.pc) < 400:
+            # branch decided by the path condition (e.g. by `requires`): do not explore the dead arm
+            if self.prove_quick(state, c, timeout_ms=100):
+                return outs + self.exec_block(state, st.body)
+            if self.prove_quick(state, z3.Not(c), timeout_ms=100):
+                return outs + self.exec_block(state, st.orelse)
         s2 = state.copy()
         state.assume(c)
         s2.assume(z3.Not(c))
@@ -798,6 +804,8 @@ class Executor:
         tgt = mi.imports.get(name)
         if tgt is not None:
             return self.resolve_dotted(state, tgt)
+        if loader.is_repo_module(mod + "." + name):
+            return VModule(mod + "." + name)        # submodule of a package
         if missing_ok:
             return None
         raise Unsupported("unknown attribute %s.%s" % (mod, name))
